@@ -22,6 +22,10 @@ CLAIMS = {
    text="Server.handleRequest is proved to advertise latest+1, to serve the power table of the first requested instance only on request, and to read from the store exactly the inclusive range [first, end] with end-first+1 <= min(limit,256) and end < pending (all request values, including limit 0 and sums that wrap); the client's receive goroutine is proved to hand over a certificate only when it is the next one in sequence and within the limit; Poller.Poll is proved to validate every received certificate against its own current table / instance / network and to call Store.Put only after that validation succeeded, to classify a validation failure as PollIllegal, and never to decrease NextInstance.",
    note="Byte-for-byte equality of the served certificates with the stored ones rests on Store.GetRange (C09) and the codec (C14, not decided). Store.Put and ValidateFinalityCertificates enter Poll through assumed post-conditions (latest >= stored certificate; next = next + number of certificates), listed in the evidence. select statements and channel receives are abstracted (state havoc'd, received value unconstrained). " + LEVEL_NOTE_COMMON,
    tech="contract-based deductive verification (own VC generator over go/ssa, SMT)"),
+ "C04": dict(cat="proof", ref="DESIGN.md §6 C04",
+   text="ValidateFinalityCertificates is proved, for any number of certificates, to accept only consecutive instances, well-formed non-bottom chains linked to the previous head (or the caller's base), to check each signature against the table in force, to apply the delta to that table only after the signature check, to compare the CID of exactly the resulting table with the committed one, to advance (instance, base, table) exactly by the validated certificate, and on every error return to report the valid-prefix triple; verifyFinalityCertificateSignature is proved to require signers inside the table with non-zero scaled power and 3*sum(scaled power of signers) >= 2*total, and to verify the aggregate over exactly {instance, round 0, DECIDE, supplemental data, chain} and exactly those signers; ApplyPowerTableDiffsToMap is proved to accept only strictly id-sorted deltas without empty entries and to modify only the given map; ApplyPowerTableDiffs is proved to modify nothing that existed before the call on any path.",
+   note="NOT covered: MakePowerTableDiff and the round-trip / uniqueness lemmas over the abstract table view (the accepted-delta shape is proved, the full functional apply specification is not); 'certificates produced by consensus are accepted' (C03 lemma). Aggregate verification, CIDs and payload marshalling are uninterpreted; ECChain.Validate/IsZero/Equal results are used as returned. Instance numbers are assumed not to wrap around 2^64. " + LEVEL_NOTE_COMMON,
+   tech="contract-based deductive verification (own VC generator over go/ssa, SMT)"),
 }
 NA = {
  "C06": "liveness under partial synchrony with real-time bounds over multi-node schedules: no function contract can state it (DESIGN.md §7)",
